@@ -5,7 +5,7 @@ set -u
 SID=$1; P=$2; TIER=${3:-quick}
 WT=/tmp/wt_seedrun_${SID}_$P
 TAG=${SID}_$P
-HEAD=$(git -C /repo rev-parse HEAD)
+HEAD=${SEED_BASE:-$(git -C /repo rev-parse HEAD)}
 git -C /repo worktree add -q --detach $WT $HEAD 2>/dev/null || { git -C $WT checkout -q -- . ; git -C $WT clean -fdq; git -C $WT checkout -q --detach $HEAD; }
 # untracked hook files of /repo (verif_*.go) are part of the harness build
 (cd /repo && git ls-files -o --exclude-standard | grep 'verif_.*\.go$' | while read f; do mkdir -p $WT/$(dirname $f); cp $f $WT/$f; done)
